@@ -299,6 +299,19 @@ def _returned_cls_call(fi: FuncInfo, prog: Program = None, depth=0):
 
 
 def sorted_ctors(res: CheckResult, prog: Program):
+    """Decided by interpretation (rules_ctor.CtorFlow); the structural form below is the fall-back when a constructor
+    uses something the interpreter does not support."""
+    from . import rules_ctor
+    try:
+        rules_ctor.ctor_rules(res, prog)
+        res.extra['ctor_rules_method'] = 'abstract interpretation of MosCollection.from_* over a symbolic list of sources'
+        return
+    except AnalysisError as e:
+        res.extra['ctor_rules_method'] = f'structural rules on the syntax tree (interpretation not possible: {e})'
+    _sorted_ctors_structural(res, prog)
+
+
+def _sorted_ctors_structural(res: CheckResult, prog: Program):
     res.rules['SORTED-CTORS'] = 'each MosCollection.from_* passes to cls(...) the result of sorted(<all constructed readers>) with no key/reverse'
     res.rules['CTOR-ARGS'] = 'each MosCollection.from_* forwards allow_incomplete and builds its readers with the matching MosReader.from_*'
     pairs = {'from_files': 'from_file', 'from_strings': 'from_string', 'from_s3': 'from_s3'}
@@ -463,6 +476,8 @@ def all_pages(res: CheckResult, prog: Program):
 
 
 def collection_ctor_siblings(res: CheckResult, prog: Program):
+    if any(o.rule == 'COLL-SIBLINGS' for o in res.obligations) or str(res.extra.get('ctor_rules_method', '')).startswith('abstract'):
+        return          # already decided by interpretation (sorted_ctors)
     res.rules['COLL-SIBLINGS'] = 'the three MosCollection constructors have the same pipeline (reader per input, drop None, sorted, cls(..., allow_incomplete=...)) and differ only in the reader constructor'
 
     def shape(fi, reader_ctor):
@@ -533,7 +548,13 @@ def cli_rules(res: CheckResult, prog: Program, from_file_raises, inspect_ok: boo
         res.error('LOOP-CONTAIN: the two per-file loops of detect_or_inspect were not found')
     res.add('LOOP-CONTAIN', 'inspect()', 'no inspect() can raise for a classifiable message (C20 INSPECT-TOTAL)', inspect_ok,
             '' if inspect_ok else 'an inspect() method has an exceptional exit: mosromgr inspect aborts on that message')
-    # flags
+    cli_parser_flags(res, prog)
+    dm = prog.func('CLI.do_merge')
+    _cli_rest(res, prog, dm, hier)
+
+
+def cli_parser_flags(res: CheckResult, prog: Program):
+    res.rules.setdefault('FLAG-PLUMB', 'allow_incomplete=self._args.incomplete reaches all collection constructors; strict = not self._args.non_strict reaches mc.merge(strict=...)')
     parser = prog.func('CLI._get_parser')
     flags = {}
     for c in calls_in(parser.node, lambda c: attr_chain(c.func).endswith('.add_argument')):
@@ -543,7 +564,9 @@ def cli_rules(res: CheckResult, prog: Program, from_file_raises, inspect_ok: boo
             flags[n] = act
     ok = flags.get('--incomplete') == 'store_true' and flags.get('--non-strict') == 'store_true'
     res.add('FLAG-PLUMB', parser.short, '--incomplete / --non-strict are store_true flags', ok, '' if ok else f'flag definitions: incomplete={flags.get("--incomplete")}, non-strict={flags.get("--non-strict")}', parser.file, parser.node.lineno)
-    dm = prog.func('CLI.do_merge')
+
+
+def _cli_rest(res: CheckResult, prog: Program, dm, hier):
     ctors = calls_in(dm.node, lambda c: attr_chain(c.func).startswith('MosCollection.from_'))
     for c in ctors:
         kw = {k.arg: attr_chain(k.value) for k in c.keywords}
